@@ -151,7 +151,17 @@ func runConn(t *testing.T, p Plan) outcome {
 	if p.MaxConns < 1 {
 		p.MaxConns = 1
 	}
-	msg := vk.Bubble(t, func(t *testing.T) {
+	var msg string
+	guarded("conn", func() { msg = bubbleConn(t, p, &out) })
+	if out.violation == "" && msg != "" {
+		out.violation = "after ClientConn.Close and connection close the bubble did not drain (goroutine leak) or a bubble goroutine panicked: " + msg
+	}
+	return out
+}
+
+func bubbleConn(t *testing.T, p Plan, outp *outcome) string {
+	out := outp
+	return vk.Bubble(t, func(t *testing.T) {
 		rig := &connRig{p: p}
 		opts := []grpc.DialOption{
 			grpc.WithTransportCredentials(insecure.NewCredentials()),
@@ -182,6 +192,7 @@ func runConn(t *testing.T, p Plan) outcome {
 		var wg sync.WaitGroup
 		for _, st := range p.Script {
 			out.steps++
+			bump()
 			switch st.K {
 			case kRPC:
 				if st.N < 0 || st.N >= len(p.RPCs) || recs[st.N] != nil {
@@ -332,10 +343,6 @@ func runConn(t *testing.T, p Plan) outcome {
 			wg.Wait()
 		}
 	})
-	if out.violation == "" && msg != "" {
-		out.violation = "after ClientConn.Close and connection close the bubble did not drain (goroutine leak) or a bubble goroutine panicked: " + msg
-	}
-	return out
 }
 
 func TestVerifC11Conn(t *testing.T) {
